@@ -11,6 +11,7 @@ type PD struct {
 	info   *imagetypes.FrameInfo
 	onGet  func(i int)
 	onAdd  func(i int)
+	copies bool // AddFrame stores a private copy (the reference runs of C18: their result must not depend on buffer reuse)
 }
 
 func NewPD(info *imagetypes.FrameInfo, frames ...[]byte) *PD {
@@ -30,6 +31,9 @@ func (p *PD) GetFrame(i int) ([]byte, error) {
 func (p *PD) AddFrame(b []byte) error {
 	if p.onAdd != nil {
 		p.onAdd(len(p.frames))
+	}
+	if p.copies {
+		b = append([]byte{}, b...)
 	}
 	p.frames = append(p.frames, b)
 	return nil
